@@ -48,6 +48,7 @@ type c13 struct {
 func runC13(t *rapid.T) {
 	opts := chainsim.WorldOpts{Nodes: [2]int{2, 4}, Validators: [2]int{3, 6}, ValidatorChanges: true, NetFaults: true, SmallCache: true}
 	w := chainsim.DrawWorld(t, opts)
+	defer w.Shutdown()
 	c := &c13{t: t, w: w}
 	c.victim = w.S.NewDetachedNode("victim")
 	c.twin = w.S.NewDetachedNode("twin")
